@@ -155,6 +155,7 @@ class SimTransport(asyncio.Transport):
         self._stalled = False
         self._buffer = []
         self._proto_paused = False
+        self._rst_pending = False
 
     # --- client-side API
     def get_extra_info(self, name, default=None):
@@ -259,7 +260,14 @@ class SimTransport(asyncio.Transport):
     def peer_reset(self, exc=None):
         if self._conn_lost:
             return False
-        self.conn.net.log.add("NET.peer_rst", conn=self.conn.id)
+        self.conn.net.log.add("NET.peer_rst", conn=self.conn.id, after_fin=self._peer_fin)
+        if self._peer_fin and not self._closing:
+            # A selector transport stops reading once it has seen EOF (the stream
+            # protocol keeps the write side open): a reset that follows the FIN is
+            # only noticed by the next write (EPIPE/ECONNRESET).  The model must not
+            # show the client what TCP + asyncio cannot show it.
+            self._rst_pending = True
+            return True
         self._force_close(exc or ConnectionResetError(104, "Connection reset by peer"))
         return True
 
@@ -298,7 +306,8 @@ class Conn:
     def on_client_write(self, data):
         self.nwrites += 1
         tr = self.transport
-        fault = self.fail_write_at is not None and self.nwrites >= self.fail_write_at
+        fault = (self.fail_write_at is not None and self.nwrites >= self.fail_write_at) \
+            or tr._rst_pending
         self.net.log.add("NET.write", conn=self.id, data=data, fault=fault,
                          n=self.nwrites)
         self.written += data
